@@ -27,6 +27,17 @@ CHECKS = {
         text='Runtime monitoring: every generated valid document is checked in three surface forms and as dump() output (is_lmf, scan_lexicons == load, add succeeds); then each applicable single-fault mutant of the listed classes is given to the real load() and add() on a non-empty database: both must raise, the logical dump of all tables must be unchanged; header variants compare is_lmf() with load(). Held on K mutants; acceptance is the only alarm (which exception is raised is not constrained).',
         note='Fault classes are exactly those of the statement; misplaced-but-known elements are not generated.  Known finding: add() does not parse a file whose lexicons are all skipped.',
         ref='3/C20'),
+    'C06': dict(
+        level='fault_enumeration',
+        technique='fault enumeration over k in five classes (progress-handler callbacks, SQLite authorizer denials, sys.monitoring line failpoints in wn/_add.py, mid-DELETE VM aborts, corrupted references) with a byte-level table-dump oracle and an online SQL transaction-bracket checker',
+        text='Fault enumeration on real executions: for generated resources on a non-empty database every fault point of a class is first counted in a dry run on a copy, then injected one at a time (quick: sampled k incl. first/last and one per distinct source line; thorough: every k) into wn.add and wn.remove; after each fault the logical dump of all 24 tables (rowids included) must equal the dump before the call, the SQL trace must show no commit inside the failed call, the pooled connection must still serve reads, and finally the real operation must give the same database as without the faults. Counts of injected/interrupted/survived faults per class are in the evidence.',
+        note='Unit of atomicity = one resource (add) / one lexicon with its extensions (remove). A fault firing after the operation committed is not an interrupted operation (only the completed state is then also admissible). The harness drops the exception before probing usability (a traceback kept alive keeps the library cursor alive).',
+        ref='3/C06'),
+    'C07': dict(
+        technique='differential monitor between supply routes (table dumps with rowids, per-lexicon observations) + sys.addaudithook file-system monitor + ResourceWarning/tracemalloc leak monitor under -X dev',
+        text='Runtime monitoring: every generated resource is supplied through 11-14 routes (xml, odd file name, gz, xz, package directory with extra files, collection, tar/tar.gz/tar.xz of file, package and collection, in-memory), each on an empty database; dumps must be identical between order-preserving routes, observations identical for all, one route is also compared with the reference model; re-adding (same and another route) must change nothing, an extension without base must store nothing; audit hooks check that no input is opened for writing or modified and no temporary file survives.',
+        note='Collections hold mutually independent packages; their iteration order is not controlled (per-lexicon comparison only).',
+        ref='3/C07'),
 }
 
 NOT_YET = 'check not built yet in this round (work in progress; see DESIGN.md section 3 for the design)'
